@@ -1343,6 +1343,149 @@ example :
     y.callers = [([1], .finished (some [1, 9])), ([0], .finished none), ([2], .finished (some [2, 9]))] ∧
     y.conns.length = 2 ∧ y.cur = some 1 := by decide
 
+/-- **no caller of `Send` is ever stuck** (liveness at quiescence, kept and single-use clients): in
+every reachable state in which neither a caller nor the server side of any connection can move,
+every caller has returned — the per-destination lock is never left held, a failed request never
+leaves a caller waiting on a dead connection, a waiting caller always gets its turn. -/
+theorem c14_client_nobody_stuck (respond : Bytes → Option Bytes) (keep : Bool) (reqs : List Bytes)
+    (sched : List KAct) :
+    let y := kRun .fixed respond { keep := keep, callers := reqs.map (fun q => (q, .start)) } sched
+    (∀ a, kStep .fixed respond y a = none) →
+      ∀ (i : Nat) q pc, y.callers[i]? = some (q, pc) → ∃ res, pc = .finished res := by
+  intro y hq i q pc hc
+  obtain ⟨hI, _⟩ := kRun_inv respond sched _ (kInv_fresh respond keep reqs)
+  change KInv respond y at hI
+  -- the caller between `Lock` and `Unlock`, if there is one, can move (or the server can)
+  have holderMoves : ∀ (j : Nat) q', 
+      ((y.callers[j]? = some (q', .locked 0) ∨ y.callers[j]? = some (q', .dialing 0)) ∨
+       (∃ c, y.callers[j]? = some (q', .ready 0 c) ∧ y.cur = some c ∧ CurAlive y) ∨
+       (∃ c k, y.callers[j]? = some (q', .written 0 c) ∧ y.conns[c]? = some k ∧ k.closed = false ∧
+          ((k.up = [q'] ∧ k.down = [] ∧ k.dead = false) ∨ (k.up = [] ∧ k.down = [respond q'] ∧ k.dead = (respond q').isNone)))) →
+      False := by
+    intro j q' hcase
+    rcases hcase with (h1 | h1) | ⟨c, h1, hcur, ha⟩ | ⟨c, k, h1, hk, hcl, hor⟩
+    · have := hq (.caller j)
+      simp only [kStep, h1] at this
+      split at this <;> simp at this
+    · have := hq (.caller j)
+      simp [kStep, h1] at this
+    · obtain ⟨k, hk, _, hcl⟩ := ha c hcur
+      have := hq (.caller j)
+      simp [kStep, h1, hk, hcl] at this
+    · rcases hor with ⟨hu, hd, hdd⟩ | ⟨hu, hd, hdd⟩
+      · have := hq (.server c)
+        simp [kStep, hk, hcl, hdd, hu] at this
+      · have := hq (.caller j)
+        simp [kStep, h1, hk, hcl, hd] at this
+  cases pc with
+  | finished res => exact ⟨res, rfl⟩
+  | start =>
+    exfalso
+    have := hq (.caller i)
+    simp only [kStep, hc] at this
+    split at this <;> simp at this
+  | ref l =>
+    exfalso
+    obtain ⟨rfl, hcl⟩ := hI.refs i q _ l hc rfl
+    obtain ⟨h, hone, hm⟩ := hI.holder
+    cases h with
+    | none =>
+      have hlk : y.locks = [false] := by
+        rcases hm.1 with he | he
+        · rcases hI.lockObj with ⟨hn, _⟩ | ⟨_, b, hb⟩
+          · rw [hn] at hcl; cases hcl
+          · rw [he] at hb; cases hb
+        · exact he
+      have := hq (.caller i)
+      simp [kStep, hc, hlk] at this
+    | some j =>
+      obtain ⟨_, q', hm⟩ := hm
+      rcases hm with ⟨hor, _, _⟩ | ⟨c, h1, hcur, _, ha⟩ | ⟨c, k, h1, _, _, hk, hcl', hor⟩
+      · exact holderMoves j q' (Or.inl hor)
+      · exact holderMoves j q' (Or.inr (Or.inl ⟨c, h1, hcur, ha⟩))
+      · exact holderMoves j q' (Or.inr (Or.inr ⟨c, k, h1, hk, hcl', hor⟩))
+  | locked l =>
+    exfalso
+    obtain ⟨rfl, _⟩ := hI.refs i q _ l hc rfl
+    exact holderMoves i q (Or.inl (Or.inl hc))
+  | dialing l =>
+    exfalso
+    obtain ⟨rfl, _⟩ := hI.refs i q _ l hc rfl
+    exact holderMoves i q (Or.inl (Or.inr hc))
+  | ready l c =>
+    exfalso
+    obtain ⟨rfl, _⟩ := hI.refs i q _ l hc rfl
+    obtain ⟨h, hone, hm⟩ := hI.holder
+    have := hone i q _ hc trivial
+    subst this
+    obtain ⟨_, q', hm⟩ := hm
+    rcases hm with ⟨h1 | h1, _⟩ | ⟨c', h1, hcur, _, ha⟩ | ⟨c', k, h1, _⟩
+    · rw [hc] at h1; cases h1
+    · rw [hc] at h1; cases h1
+    · exact holderMoves i q' (Or.inr (Or.inl ⟨c', h1, hcur, ha⟩))
+    · rw [hc] at h1; cases h1
+  | written l c =>
+    exfalso
+    obtain ⟨rfl, _⟩ := hI.refs i q _ l hc rfl
+    obtain ⟨h, hone, hm⟩ := hI.holder
+    have := hone i q _ hc trivial
+    subst this
+    obtain ⟨_, q', hm⟩ := hm
+    rcases hm with ⟨h1 | h1, _⟩ | ⟨c', h1, _⟩ | ⟨c', k, h1, _, _, hk, hcl', hor⟩
+    · rw [hc] at h1; cases h1
+    · rw [hc] at h1; cases h1
+    · rw [hc] at h1; cases h1
+    · exact holderMoves i q' (Or.inr (Or.inr ⟨c', k, h1, hk, hcl', hor⟩))
+
+/-- non-vacuity: the final state of the three-caller example is such a state -/
+example :
+    let y := kRun .fixed respDemo { keep := true, callers := [([1], .start), ([0], .start), ([2], .start)] }
+      [.caller 0, .caller 1, .caller 2, .caller 0, .caller 0, .caller 0, .caller 0, .server 0, .caller 0,
+       .caller 1, .caller 1, .caller 1, .server 0, .caller 1,
+       .caller 2, .caller 2, .caller 2, .caller 2, .server 1, .caller 2]
+    (∀ i < 3, kStep .fixed respDemo y (.caller i) = none) ∧ (∀ c < 2, kStep .fixed respDemo y (.server c) = none) := by
+  decide
+
+/-- **every request of every connection is answered** (server side, liveness at quiescence): when
+no connection goroutine of the server can move any more, every websocket connection has had all its
+messages answered or was closed by the first error on it, and every HTTP connection has had all its
+requests answered — with as many answers as requests served. -/
+theorem c14_server_quiescent_all_answered {σ M R O B : Type} (cfg : Cfg σ M R O B) (y : Sys σ O B R)
+    (hq : ∀ a, step cfg y a = none) :
+    (∀ t ∈ y.ws, t.todo = [] ∨ t.closed = true) ∧ (∀ t ∈ y.http, t.todo = []) := by
+  constructor
+  · intro t ht
+    obtain ⟨i, hi⟩ := List.getElem?_of_mem ht
+    have := hq (.ws i)
+    simp only [step, hi] at this
+    cases hc : t.closed with
+    | true => exact Or.inr rfl
+    | false =>
+      left
+      cases htd : t.todo with
+      | nil => rfl
+      | cons b bs => simp [wsStep, hc, htd] at this
+  · intro t ht
+    obtain ⟨i, hi⟩ := List.getElem?_of_mem ht
+    have := hq (.http i)
+    simp only [step, hi] at this
+    cases htd : t.todo with
+    | nil => rfl
+    | cons kq qs =>
+      exfalso
+      obtain ⟨k, q⟩ := kq
+      have hs : ∃ r, httpStep cfg y.svc y.slots t = some r := by
+        cases hd : t.decoded with
+        | some o => simp only [httpStep, htd, hd]; exact ⟨_, rfl⟩
+        | none =>
+          simp only [httpStep, htd, hd]
+          split
+          · exact ⟨_, rfl⟩
+          · split <;> exact ⟨_, rfl⟩
+      obtain ⟨r, hr⟩ := hs
+      obtain ⟨s', sl', t'⟩ := r
+      simp [hr] at this
+
 /-! ### the client: several nodes asked at once -/
 
 /-- invariant of `SendProtobufParallelWithDecoder`: once a winner is announced, `ret` holds the
